@@ -539,6 +539,58 @@ func pipeGen(r *Rand, tier string) []string {
 		}
 		out = append(out, line)
 	}
+	return append(out, pipeTailGen(r, tier)...)
+}
+
+// pipeTailGen: histories in which the LAST batches a worker processes contain no matched line - only ignored ones
+// (a truthy ignore expression, or an empty key) and unmatched ones - after batches with matches, or with nothing
+// before them: whatever a worker tallies for such a batch must still reach the totals (a per-worker tally that is
+// published only together with a batch of matches loses it).  Small batch sizes so that the tail spans several
+// batches, one to three workers, both ways of being ignored.
+func pipeTailGen(r *Rand, tier string) []string {
+	n := 16
+	if tier == "thorough" {
+		n = 300
+	}
+	var out []string
+	for i := 0; i < n; i++ {
+		emptyKey := i%2 == 1 // nil ignore set, extract {1}: a line without ':' has an empty key
+		matchedL, ignoredL := []string{"a", "bb", "m"}, []string{"k:v", "q:1", "k: z"}
+		if emptyKey {
+			matchedL, ignoredL = ignoredL, []string{"a", "bb", "", "k:"}
+		}
+		nin := Pick(r, []int{1, 1, 1, 2, 3})
+		batch := Pick(r, []int{1, 1, 2, 2, 3, 4})
+		var ins [][]byte
+		for k := 0; k < nin; k++ {
+			var sb bytes.Buffer
+			head := Pick(r, []int{0, 0, 1, 2, 3, 5})
+			tail := batch * Pick(r, []int{1, 1, 2, 3}) + Pick(r, []int{0, 0, 1})
+			for j := 0; j < head; j++ {
+				sb.WriteString(Pick(r, append(append([]string{"x"}, matchedL...), matchedL...)) + "\n")
+			}
+			for j := 0; j < tail; j++ {
+				l := Pick(r, ignoredL)
+				if r.Chance(1, 5) {
+					l = "x" + l // unmatched
+				}
+				sb.WriteString(l + "\n")
+			}
+			ins = append(ins, sb.Bytes())
+		}
+		mode := "files"
+		if nin == 1 && r.Chance(1, 3) {
+			mode = "reader"
+		}
+		line := fmt.Sprintf("pipe %s %s %d %d %d %d 0 . %d %d", HexList(ins), mode, batch, Pick(r, []int{1, 1, 2, 3}), Pick(r, []int{1, 1, 2}),
+			Pick(r, []int{1, 2, 0}), Pick(r, []int{0, 1, 4}), Pick(r, []int{0, 1}))
+		if emptyKey {
+			line += " " + strings.Join((&clsSpec{matcher: "h", nilIgnore: true, extract: "{1}"}).fields(), " ")
+		} else if r.Chance(1, 2) {
+			line += " " + strings.Join((&clsSpec{matcher: "h", ignores: []string{"{1}"}, extract: "{src}:{line}:{0}"}).fields(), " ")
+		}
+		out = append(out, line)
+	}
 	return out
 }
 
